@@ -44,9 +44,13 @@ func (c *Ctx) RetVal(ret *ssa.Return, i int) ssa.Value {
 
 func returnsOf(f *ssa.Function) []*ssa.Return {
 	var out []*ssa.Return
+	live := feasibleBlocks(f)
 	for _, b := range f.Blocks {
 		if f.Recover != nil && b == f.Recover {
 			continue
+		}
+		if live != nil && !live[b] {
+			continue // only behind an edge no execution takes (a test of a hook that nothing in the library sets, …)
 		}
 		for _, in := range b.Instrs {
 			if r, ok := in.(*ssa.Return); ok {
@@ -475,4 +479,49 @@ func (c *Ctx) serveHandovers(f *ssa.Function) []serveHandover {
 		})
 	}
 	return out
+}
+
+type feasCacheEntry struct {
+	n    int
+	live map[*ssa.BasicBlock]bool
+}
+
+var feasCache = map[*ssa.Function]feasCacheEntry{}
+
+// feasibleBlocks: the blocks reachable from the entry without an edge the infeasible-edge oracle excludes (nil when the
+// oracle excludes no edge of f).
+func feasibleBlocks(f *ssa.Function) map[*ssa.BasicBlock]bool {
+	if len(f.Blocks) == 0 || len(infeasibleEdges) == 0 {
+		return nil
+	}
+	if e, ok := feasCache[f]; ok && e.n == len(infeasibleEdges) {
+		return e.live
+	}
+	any := false
+	for _, b := range f.Blocks {
+		if _, ok := infeasibleEdges[b]; ok {
+			any = true
+		}
+	}
+	var live map[*ssa.BasicBlock]bool
+	if any {
+		live = map[*ssa.BasicBlock]bool{f.Blocks[0]: true}
+		work := []*ssa.BasicBlock{f.Blocks[0]}
+		for len(work) > 0 {
+			b := work[len(work)-1]
+			work = work[:len(work)-1]
+			for k, s := range b.Succs {
+				if edgeInfeasible(b, k) || live[s] {
+					continue
+				}
+				live[s] = true
+				work = append(work, s)
+			}
+		}
+		if f.Recover != nil {
+			live[f.Recover] = true
+		}
+	}
+	feasCache[f] = feasCacheEntry{len(infeasibleEdges), live}
+	return live
 }
